@@ -45,15 +45,8 @@ theorem check_sign_sign (cfg : Cfg α) (s : Signer) (key p : Bytes)
 
 /-- the same for whichever signer is configured (`NullSigner` included) -/
 theorem check_sign_sign_any (cfg : Cfg α) (hhex : HexMac cfg) (key p b : Bytes)
-    (h : sign cfg key (.bytes p) = some (.bytes b)) : checkSign cfg key b = .ok p := by
-  unfold sign at h
-  unfold checkSign
-  cases hs : cfg.signer with
-  | none => simp [hs] at h; simp [h]
-  | some s =>
-    simp [hs] at h
-    subst h
-    exact check_sign_sign cfg s key p (hhex _ _ _)
+    (h : sign cfg key (.bytes p) = some (.bytes b)) : checkSign cfg key b = .ok p :=
+  checkSign_sign cfg hhex key p b h
 
 /-- the hex hypothesis is not an idealisation: it holds for every MAC built the way
 `HashSigner._digestmods` builds them (any raw keyed hash rendered with `hexdigest()`, and `sum`) -/
@@ -112,21 +105,6 @@ theorem encoded_blob_never_digits (cfg : Cfg α) (key : Bytes) (v : Val α) (b :
     | none =>
       simp only [hc] at h
       exact hsign _ h (fun p hp => hp3 p hp)
-
-/-- decoding a signed-or-not blob whose payload is `p`: the digit shortcut is skipped, the
-signature verifies, and either the custom decoder or `loads p` decides -/
-private theorem decode_signed (cfg : Cfg α) (hhex : HexMac cfg) (key p b : Bytes)
-    (hsig : sign cfg key (.bytes p) = some (.bytes b)) (hnd : isDigits b = false) :
-    decode cfg key (.bytes b) false
-      = if isCustomEncoded cfg p then customDecode cfg p else postLoads cfg p (cfg.pickler.loads p) := by
-  have := check_sign_sign_any cfg hhex key p b hsig
-  by_cases hc : isCustomEncoded cfg p = true <;> simp [decode, preLoads, hnd, this, hc]
-
-/-- `tag:payload` with a registered, colon-free tag is recognised as custom-encoded -/
-private theorem isCustomEncoded_tagged (cfg : Cfg α) (htags : ∀ tag c, cfg.registry tag = some c → colon ∉ tag)
-    (tag payload : Bytes) (c : Codec α) (hreg : cfg.registry tag = some c) :
-    isCustomEncoded cfg (tag ++ colon :: payload) = true := by
-  simp [isCustomEncoded, splitFirst_append colon _ _ (htags _ c hreg), hreg]
 
 /-- **Round trip, real picklers** (default pickle, json, dill, sqlalchemy; with or without a secret;
 any of the four digests).  For every key and every value `v`:
